@@ -360,3 +360,475 @@ func init() {
 		},
 	})
 }
+
+// srcVarName: the source variable a receiver value stands for (a parameter, a
+// local cell, a variable captured by a closure), "" if it is something else.
+func srcVarName(v ssa.Value) string {
+	switch x := v.(type) {
+	case *ssa.Parameter:
+		return x.Name()
+	case *ssa.FreeVar:
+		return x.Name()
+	case *ssa.Alloc:
+		return x.Comment
+	case *ssa.UnOp:
+		if x.Op == token.MUL {
+			switch y := x.X.(type) {
+			case *ssa.Alloc:
+				return y.Comment
+			case *ssa.FreeVar:
+				return y.Name()
+			case *ssa.FieldAddr:
+				return accessPath(x)
+			}
+		}
+	}
+	return ""
+}
+
+func init() {
+	register(&Rule{
+		Name:   "CLOSE-BEFORE-SIZE",
+		ZeroOK: true, // the control keeps the matcher alive
+		Doc:    "a chunked int coder's FinalSize() is the size of what Close() has flushed: in a function that closes an encoder, every FinalSize() of that encoder - in the function itself or in a closure it creates - is taken after the Close() (the call, or the creation of the closure, is dominated by it); a size read before the Close says 0 for a term that has locations, and the term is then written as a 1-hit without them",
+		Run: func(c *Ctx, scope string, r *Report) {
+			isCoderMethod := func(cc *ssa.CallCommon, name string) bool {
+				sc := cc.StaticCallee()
+				if sc == nil || sc.Name() != name || sc.Signature.Recv() == nil || len(cc.Args) == 0 {
+					return false
+				}
+				n := namedOf(sc.Signature.Recv().Type())
+				return n != nil && (n.Obj().Name() == "chunkedIntCoder" || n.Obj().Name() == "ctlCoder")
+			}
+			for _, fn := range c.srcFns {
+				if fn.Parent() != nil {
+					continue
+				}
+				closes := map[string][]ssa.Instruction{}
+				for _, b := range fn.Blocks {
+					for _, ins := range b.Instrs {
+						if ci, ok := ins.(ssa.CallInstruction); ok && isCoderMethod(ci.Common(), "Close") {
+							if n := srcVarName(ci.Common().Args[0]); n != "" {
+								closes[n] = append(closes[n], ins)
+							}
+						}
+					}
+				}
+				if len(closes) == 0 {
+					continue
+				}
+				type use struct {
+					name string
+					at   ssa.Instruction // position in fn
+					pos  token.Pos
+				}
+				var uses []use
+				for _, b := range fn.Blocks {
+					for _, ins := range b.Instrs {
+						if ci, ok := ins.(ssa.CallInstruction); ok && isCoderMethod(ci.Common(), "FinalSize") {
+							uses = append(uses, use{srcVarName(ci.Common().Args[0]), ins, ins.Pos()})
+						}
+						if mc, ok := ins.(*ssa.MakeClosure); ok {
+							g := mc.Fn.(*ssa.Function)
+							for _, gb := range g.Blocks {
+								for _, gi := range gb.Instrs {
+									if ci, ok := gi.(ssa.CallInstruction); ok && isCoderMethod(ci.Common(), "FinalSize") {
+										uses = append(uses, use{srcVarName(ci.Common().Args[0]), mc, gi.Pos()})
+									}
+								}
+							}
+						}
+					}
+				}
+				n := 0
+				for _, u := range uses {
+					cl := closes[u.name]
+					if u.name == "" || len(cl) == 0 {
+						continue
+					}
+					n++
+					key := fmt.Sprintf("%s/FinalSize-%s-%d", fnName(fn), u.name, n)
+					okDom := false
+					for _, ci := range cl {
+						if before(ci, u.at) {
+							okDom = true
+						}
+					}
+					if okDom {
+						r.ok(key, fnName(fn), c.pos(u.pos), "taken after "+u.name+".Close()")
+					} else {
+						r.bad(key, fnName(fn), c.pos(u.pos), "FinalSize() of "+u.name+" is taken before "+u.name+".Close() has flushed the last chunk: it does not include it (it is 0 for a term with one small chunk), so a term that has locations can be taken for one without")
+					}
+				}
+			}
+		},
+	})
+}
+
+// THREADED-RESULT.  Many functions here thread an accumulator through: a
+// cursor, a running count or a scratch buffer comes in as a parameter and the
+// advanced value goes out as a result (`curr, data, err = encode(…, curr,
+// data)`).  If one successful return hands back a value derived from the
+// parameter, every successful return has to: a return that hands back the zero
+// value instead (a bare `return` before the named results were set, a literal
+// 0 / nil) resets the caller's accumulator, and what was collected before is
+// overwritten or lost.
+
+func derivedFromParam(v ssa.Value, p *ssa.Parameter, seen map[ssa.Value]bool, depth int) bool {
+	if depth > 12 || seen[v] {
+		return false
+	}
+	seen[v] = true
+	switch x := v.(type) {
+	case *ssa.Parameter:
+		return x == p
+	case *ssa.Convert:
+		return derivedFromParam(x.X, p, seen, depth+1)
+	case *ssa.ChangeType:
+		return derivedFromParam(x.X, p, seen, depth+1)
+	case *ssa.Phi:
+		for _, e := range x.Edges {
+			if derivedFromParam(e, p, seen, depth+1) {
+				return true
+			}
+		}
+	case *ssa.BinOp:
+		if x.Op == token.ADD {
+			return derivedFromParam(x.X, p, seen, depth+1) || derivedFromParam(x.Y, p, seen, depth+1)
+		}
+	case *ssa.Slice:
+		return derivedFromParam(x.X, p, seen, depth+1)
+	case *ssa.Call:
+		if bi, ok := x.Call.Value.(*ssa.Builtin); ok && bi.Name() == "append" && len(x.Call.Args) > 0 {
+			return derivedFromParam(x.Call.Args[0], p, seen, depth+1)
+		}
+		// handed to a callee that threads it on
+		for _, a := range x.Call.Args {
+			if derivedFromParam(a, p, seen, depth+1) && types.Identical(x.Type(), p.Type()) {
+				return true
+			}
+		}
+	case *ssa.Extract:
+		if call, ok := x.Tuple.(*ssa.Call); ok {
+			for _, a := range call.Call.Args {
+				if types.Identical(x.Type(), p.Type()) && derivedFromParam(a, p, seen, depth+1) {
+					return true
+				}
+			}
+		}
+	case *ssa.UnOp:
+		if x.Op == token.MUL {
+			// a named result / local cell: what is stored into it
+			if a, ok := x.X.(*ssa.Alloc); ok && a.Referrers() != nil {
+				for _, ref := range *a.Referrers() {
+					if st, ok := ref.(*ssa.Store); ok && st.Addr == ssa.Value(a) && derivedFromParam(st.Val, p, seen, depth+1) {
+						return true
+					}
+				}
+			}
+		}
+	}
+	return false
+}
+
+func isZeroValueConst(v ssa.Value) bool {
+	k, ok := v.(*ssa.Const)
+	if !ok {
+		return false
+	}
+	if k.Value == nil {
+		return true // nil, or the zero value of an aggregate
+	}
+	if i, ok := constInt(k); ok {
+		return i == 0
+	}
+	return false
+}
+
+func init() {
+	register(&Rule{
+		Name:   "THREADED-RESULT",
+		ZeroOK: true,
+		Doc:    "an accumulator threaded through a function (a parameter of integer or slice type whose advanced value - the parameter itself, plus something, appended to, re-sliced, or passed on to a callee of the same shape - is handed back as a result on a successful return) is handed back on every successful return: no successful return carries the zero value (a literal, or a named result that was never set on that path) in that position",
+		Run: func(c *Ctx, scope string, r *Report) {
+			for _, fn := range c.srcFns {
+				if fn.Parent() != nil || fn.Blocks == nil {
+					continue
+				}
+				res := fn.Signature.Results()
+				if res.Len() < 2 || !isErrorType(res.At(res.Len()-1).Type()) {
+					continue
+				}
+				rets := maySucceedReturns(fn)
+				if len(rets) < 2 {
+					continue
+				}
+				for i := 0; i < res.Len()-1; i++ {
+					rt := res.At(i).Type()
+					switch rt.Underlying().(type) {
+					case *types.Basic, *types.Slice:
+					default:
+						continue
+					}
+					if b, ok := rt.Underlying().(*types.Basic); ok && b.Info()&types.IsInteger == 0 {
+						continue
+					}
+					for _, p := range fn.Params {
+						if !types.Identical(p.Type(), rt) {
+							continue
+						}
+						// which successful returns carry something derived from p, which a zero value
+						var derived, zero []*ssa.BasicBlock
+						for _, rb := range rets {
+							ret := rb.Instrs[len(rb.Instrs)-1].(*ssa.Return)
+							if i >= len(ret.Results) {
+								continue
+							}
+							// a success return: the error operand is the nil constant
+							if !isNilConst(resolveLoad(ret.Results[len(ret.Results)-1])) {
+								continue
+							}
+							v := ret.Results[i]
+							// a named result read at the return: the value it holds on this path
+							if ld, ok := v.(*ssa.UnOp); ok && ld.Op == token.MUL {
+								if a, ok := ld.X.(*ssa.Alloc); ok {
+									if sv := lastStoreOnEveryPath(a, rb); sv != nil {
+										v = sv
+									} else if noStoreReaches(a, rb) {
+										zero = append(zero, rb)
+										continue
+									}
+								}
+							}
+							switch {
+							case isZeroValueConst(v):
+								zero = append(zero, rb)
+							case derivedFromParam(v, p, map[ssa.Value]bool{}, 0):
+								derived = append(derived, rb)
+							}
+						}
+						if len(derived) == 0 {
+							continue
+						}
+						// an accumulator: at some call site what comes back is what goes in the next time
+						if !threadedAtSomeSite(c, fn, p, i) {
+							continue
+						}
+						key := fmt.Sprintf("%s/result-%d<-%s", fnName(fn), i, p.Name())
+						if len(zero) > 0 {
+							ret := zero[0].Instrs[len(zero[0].Instrs)-1].(*ssa.Return)
+							r.bad(key, fnName(fn), c.pos(retPos(ret, zero[0])), fmt.Sprintf("result %d threads the parameter %s through (%d successful return(s) hand back its advanced value), but this successful return hands back the zero value: the caller's accumulator is reset", i, p.Name(), len(derived)))
+						} else {
+							r.ok(key, fnName(fn), c.pos(fn.Pos()), fmt.Sprintf("%d successful return(s), each handing back the advanced %s", len(derived), p.Name()))
+						}
+					}
+				}
+			}
+		},
+	})
+}
+
+// lastStoreOnEveryPath: the value stored into cell a by a store that dominates
+// block b and is not followed by another store on the way (approximated: the
+// dominating store closest to b, when no other store can reach b after it).
+func lastStoreOnEveryPath(a *ssa.Alloc, b *ssa.BasicBlock) ssa.Value {
+	if a.Referrers() == nil {
+		return nil
+	}
+	var best *ssa.Store
+	var all []*ssa.Store
+	for _, ref := range *a.Referrers() {
+		if st, ok := ref.(*ssa.Store); ok && st.Addr == ssa.Value(a) {
+			all = append(all, st)
+			if st.Block() == b || st.Block().Dominates(b) {
+				if best == nil || best.Block().Dominates(st.Block()) {
+					best = st
+				}
+			}
+		}
+	}
+	if best == nil {
+		return nil
+	}
+	for _, st := range all {
+		if st != best && canExecuteAfter(best, st) && (st.Block() == b || blockReaches(st.Block(), b)) {
+			return nil
+		}
+	}
+	return best.Val
+}
+
+// noStoreReaches: no store into cell a can execute before block b's return.
+func noStoreReaches(a *ssa.Alloc, b *ssa.BasicBlock) bool {
+	if a.Referrers() == nil {
+		return true
+	}
+	for _, ref := range *a.Referrers() {
+		if st, ok := ref.(*ssa.Store); ok && st.Addr == ssa.Value(a) {
+			if st.Block() == b || blockReaches(st.Block(), b) {
+				return false
+			}
+		}
+	}
+	return true
+}
+
+func init() {
+	register(&Rule{
+		Name:   "WRAPPED-WRITER-HASHED",
+		ZeroOK: true, // today only Write touches the wrapped writer; the control keeps the matcher alive
+		Doc:    "the writer wrapped by a countHashWriter is reached only through code that also feeds the CRC: every function other than Write that reads the wrapped-writer field and hands it something (a fast path such as ReadFrom / WriteString that lets the destination take the bytes directly) itself updates the crc field, calls a function that does, or constructs a value of a type one of whose methods does (a tee into the hash); otherwise bytes reach the destination unhashed and the footer CRC no longer covers them",
+		Run: func(c *Ctx, scope string, r *Report) {
+			for _, tname := range []string{"countHashWriter", "ctlHashWriter"} {
+				var nt *types.Named
+				if tn, ok := c.Root.Types.Scope().Lookup(tname).(*types.TypeName); ok {
+					nt, _ = tn.Type().(*types.Named)
+				}
+				if nt == nil {
+					continue
+				}
+				st, ok := nt.Underlying().(*types.Struct)
+				if !ok {
+					continue
+				}
+				// fields by role: the wrapped writer (an interface with Write) and the crc (uint32)
+				wField, crcField := "", ""
+				for i := 0; i < st.NumFields(); i++ {
+					f := st.Field(i)
+					if isWriterLike(f.Type()) {
+						wField = f.Name()
+					}
+					if b, ok := f.Type().Underlying().(*types.Basic); ok && b.Kind() == types.Uint32 {
+						crcField = f.Name()
+					}
+				}
+				if wField == "" || crcField == "" {
+					continue
+				}
+				isField := func(a ssa.Value, name string) bool {
+					fa, ok := a.(*ssa.FieldAddr)
+					if !ok {
+						return false
+					}
+					o, f := fieldAddrInfo(fa)
+					return f != nil && o != nil && o.Obj() == nt.Obj() && f.Name() == name
+				}
+				updaters := map[*ssa.Function]bool{}
+				for _, fn := range c.srcFns {
+					for _, b := range fn.Blocks {
+						for _, ins := range b.Instrs {
+							if s2, ok := ins.(*ssa.Store); ok && isField(s2.Addr, crcField) {
+								if call, ok := s2.Val.(*ssa.Call); ok && call.Call.StaticCallee() != nil && funcFullName(call.Call.StaticCallee()) == "hash/crc32.Update" {
+									updaters[fn] = true
+								}
+							}
+						}
+					}
+				}
+				for _, fn := range c.srcFns {
+					usesW := false
+					for _, b := range fn.Blocks {
+						for _, ins := range b.Instrs {
+							if ld, ok := ins.(*ssa.UnOp); ok && ld.Op == token.MUL && isField(ld.X, wField) && ld.Referrers() != nil {
+								for _, ref := range *ld.Referrers() {
+									switch u := ref.(type) {
+									case *ssa.TypeAssert, *ssa.MakeInterface, *ssa.ChangeInterface:
+										usesW = true
+									case ssa.CallInstruction:
+										if u.Common().Value == ssa.Value(ld) {
+											usesW = true
+										}
+										for _, a := range u.Common().Args {
+											if a == ssa.Value(ld) {
+												usesW = true
+											}
+										}
+									}
+								}
+							}
+						}
+					}
+					if !usesW {
+						continue
+					}
+					key := tname + "/wrapped-writer-user/" + fnName(fn)
+					feeds := updaters[fn]
+					how := "updates the crc itself"
+					for _, b := range fn.Blocks {
+						for _, ins := range b.Instrs {
+							switch x := ins.(type) {
+							case ssa.CallInstruction:
+								if sc := x.Common().StaticCallee(); sc != nil && updaters[sc] && !(sc.Signature.Recv() != nil && namedOf(sc.Signature.Recv().Type()) != nil && namedOf(sc.Signature.Recv().Type()).Obj() == nt.Obj()) {
+									feeds, how = true, "calls "+fnName(sc)
+								}
+							case *ssa.MakeInterface:
+								if n := namedOf(x.X.Type()); n != nil && n.Obj() != nt.Obj() {
+									for f := range updaters {
+										if rv := f.Signature.Recv(); rv != nil && namedOf(rv.Type()) != nil && namedOf(rv.Type()).Obj() == n.Obj() {
+											feeds, how = true, "tees into "+fnName(f)
+										}
+									}
+								}
+							}
+						}
+					}
+					if feeds {
+						r.ok(key, fnName(fn), c.pos(fn.Pos()), "hands bytes to the wrapped writer and "+how)
+					} else {
+						r.bad(key, fnName(fn), c.pos(fn.Pos()), "hands bytes to the writer wrapped by a "+tname+" without feeding the CRC (no crc32.Update of its crc field here, in a callee, or in a method of a value constructed here): bytes written this way are counted but not hashed, and the footer CRC does not cover them")
+					}
+				}
+			}
+		},
+	})
+}
+
+// threadedAtSomeSite: at a call of fn the argument for p is fed (through the
+// loop's phis, joins and local cells) by result i of a call of fn - the caller
+// keeps handing back what it was handed.
+func threadedAtSomeSite(c *Ctx, fn *ssa.Function, p *ssa.Parameter, i int) bool {
+	sites := c.callsTo(fn)
+	results := map[ssa.Value]bool{}
+	for _, site := range sites {
+		if call, ok := site.(*ssa.Call); ok {
+			if ex := tupleParts(call)[i]; ex != nil {
+				results[ex] = true
+			}
+		}
+	}
+	var fed func(v ssa.Value, seen map[ssa.Value]bool, d int) bool
+	fed = func(v ssa.Value, seen map[ssa.Value]bool, d int) bool {
+		if d > 8 || seen[v] {
+			return false
+		}
+		seen[v] = true
+		if results[v] {
+			return true
+		}
+		switch x := v.(type) {
+		case *ssa.Phi:
+			for _, e := range x.Edges {
+				if fed(e, seen, d+1) {
+					return true
+				}
+			}
+		case *ssa.Convert:
+			return fed(x.X, seen, d+1)
+		case *ssa.UnOp:
+			if a, ok := x.X.(*ssa.Alloc); ok && x.Op == token.MUL && a.Referrers() != nil {
+				for _, ref := range *a.Referrers() {
+					if st, ok := ref.(*ssa.Store); ok && st.Addr == ssa.Value(a) && fed(st.Val, seen, d+1) {
+						return true
+					}
+				}
+			}
+		}
+		return false
+	}
+	for _, site := range sites {
+		if a := argFor(site.Common(), p); a != nil && fed(a, map[ssa.Value]bool{}, 0) {
+			return true
+		}
+	}
+	return false
+}
